@@ -82,6 +82,19 @@ as above (all oracles above apply), plus for this family only:
             no False uptodate item (declared or returned by the calc task), no missing target, some dependency, no -a
                                                   shapes uptodate-despite-modified-dep / uptodate-despite-reason-to-run
 
+Family 'delayed-proc' (gen_delayed_session with flavours mostly 'proc'; sess['pickle']; harness/c10_pick.py): the delayed family
+with PICKLABLE instrumented actions (instances of module-level classes instead of closures), so that its sessions also run under
+`-n 2` worker PROCESSES: a task created at run time is sent to the worker as a whole pickled Task (runner.JobTask:
+Task.__getstate__ / pickle.loads), so the getargs values the main process put into task.options, dep_changed and the file_dep
+extended by the calc_dep task have to survive the pickling.  Same generator (shapes, episodes, selections, backends), same World /
+Shadow.judge (every oracle of family 'delayed'), 4 of 6 runs with `-n 2`, the others serial / thread (same picklable actions);
+getargs in 3 of 4 sessions.  The python-action has the getargs parameters LAST with a default (c10_pick.NOT_DELIVERED), as a user
+function `def f(targets, tok=None)`; plus, for the whole delayed family:
+   a getargs parameter of an executed task is passed to its action             shape c10:getargs-not-delivered
+   the action of a consumer (never scripted to fail) does not fail / raise      shape c10:consumer-action-failed
+Model: coq/Model/Pickle.v (what __getstate__ / pickle_safe_dict keep, init_options in the worker), theorems C10_pickled_* -- the
+family itself is judged by the implementation-side oracle only, as family 'delayed'.
+
 Family 'shared' (gen_session 'random' / 'revalue' with mostly two consumers + c10_kwargs.add_decl; model side AND every oracle
 above): HOW THE PYTHON-ACTION IS DECLARED.  The actions of the getargs consumers (and of a chain's middle task) are tuples
 `(callable, args, kwargs)` whose `kwargs` is a dict OBJECT of the dodo file -- one object for all those tasks, one per task, or a
@@ -107,6 +120,7 @@ import contextlib, hashlib, io, json, os, sys
 import common
 from common import Outcome
 import c10_kwargs
+import c10_pick
 
 PRE = ('From DoitV Require Import Base Status History Inputs.\nOpen Scope Z_scope.\n'
        'Definition md5o (c : N) : N := c.\n'
@@ -512,7 +526,7 @@ def judge_readded(sess, w, runs, out):
 DSHAPES = ('single', 'sub', 'single', 'sub', 'regex-single', 'single', 'sub', 'regex-sub')
 
 
-def gen_delayed_session(rng, idx, k):
+def gen_delayed_session(rng, idx, k, flavours=('serial', 'serial', 'thread'), p_ga=0.55):
     """family 'delayed': the consumers are created at RUN time by a `doit.create_after` creator (t['delayed'] =
     dict(executed=<id of the trigger task or None>, regex=<creator has a target_regex>)):
        single       the creator returns ONE dict: the created task takes over the node of the placeholder of the same name
@@ -550,7 +564,7 @@ def gen_delayed_session(rng, idx, k):
 
     pre = new()                                   # T0: no dependencies, executed in every run
     executed = pre if rng.random() < 0.85 else None
-    use_ga = rng.random() < 0.55
+    use_ga = rng.random() < p_ga
     use_calc = (not use_ga) or rng.random() < 0.8
     prov = extra = calc = None
     if use_ga:
@@ -700,7 +714,7 @@ def gen_delayed_session(rng, idx, k):
             eps = [episode() for _ in range(rng.choice([1, 1, 1, 2]))]
         how, sel = selection()
         fails = [i for i in (calc, prov) if i is not None and rng.random() < 0.04]
-        flavour = rng.choice(['serial', 'serial', 'thread'])
+        flavour = rng.choice(list(flavours))
         cmds.append(('Run', rng.random() < 0.06, fails, sel, flavour, how))
         episodes.append(eps)
     return dict(idx=idx, mode='delayed', shape=shape, tasks=tasks, cmds=cmds, backend=BACKENDS[k % 3], episodes=episodes,
@@ -943,6 +957,10 @@ class World:
         if t['action'] == 'py' and t.get('decl'):
             # family 'shared': the action is declared as (callable, args, kwargs) over a dict object of the dodo file
             acts.append(c10_kwargs.decl_action(self, t, name, ret, failing, {'none': None, 'dict': {}, 'true': True}[t.get('noval', 'none')], append))
+        elif t['action'] == 'py' and self.sess.get('pickle'):
+            # family 'delayed-proc': picklable callable (a run-time created task is pickled whole for a worker process)
+            acts.append(c10_pick.PyRec(log, name, params, [pname(a) for a, _, _ in t['getargs']], ret, failing,
+                                       {'none': None, 'dict': {}, 'true': True}[t.get('noval', 'none')]))
         elif t['action'] == 'py':
             src = ('def rec(%s):\n    _r = False if _failing else (dict(_ret) if _ret else _noval)\n'
                    '    _log(dict(task=_name, kw=dict(%s), ret=_r))\n    return _r\n') % (
@@ -954,9 +972,9 @@ class World:
         else:
             acts.append('echo "CMD|%s|%s" >> %s' % (name, '|'.join('%d=%%(%s)s' % (p, pname(p)) for p in t['params']), log))
             if ret or failing:
-                acts.append(lambda ret=ret: False if failing else dict(ret))
+                acts.append(c10_pick.Ret(ret, failing) if self.sess.get('pickle') else (lambda ret=ret: False if failing else dict(ret)))
         res = t['result']
-        acts.append(lambda: True if res is None else 'res%d' % res)
+        acts.append(c10_pick.Res(res) if self.sess.get('pickle') else (lambda: True if res is None else 'res%d' % res))
         d = {'actions': acts, 'file_dep': [self.path(f) for f in t['file_dep']], 'targets': [self.path(f) for f in t['targets']],
              'uptodate': [(u[1] if u[0] == 'bool' else tools.run_once) for u in t['uptodate']]}
         if t['getargs']:
@@ -1075,6 +1093,8 @@ class World:
         return [3] + row
 
     def enc_sval(self, key, x):
+        if x == c10_pick.NOT_DELIVERED:
+            return [5]
         return self.enc_dict(x) if key is None else [2, self.enc_value('u%d' % key, x)]
 
     def enc_kw(self, i, kw):
@@ -1282,6 +1302,8 @@ class Shadow:
                     if self.story is None:
                         self.story = delayed_story(sess)
                     case.update(mode='delayed', task_name=names[i], run=obs['run_no'], story=self.story)
+                    if sess.get('pickle'):
+                        case.update(pickle=True, runner=obs['cmd'][4])
                 return case
 
             def calc_latest(cdep, key):
@@ -1378,6 +1400,16 @@ class Shadow:
                     if nm not in kw:
                         continue
                     got = kw[nm]
+                    if got == c10_pick.NOT_DELIVERED:
+                        # (family delayed-proc: the getargs parameters of the picklable action have this default)
+                        vals, has = latest(s) if not tasks[s]['group'] else (None, True)
+                        out.violations.append(dict(what='the action of %s was called WITHOUT its getargs parameter %s (the parameter default was used) although getargs declares %s <- (%s, %s) and the task was executed%s; runner: %s%s'
+                                                        % (l['task'], nm, nm, names[s], None if k is None else 'u%d' % k,
+                                                           (': the most recent successful execution of %s saved %r' % (names[s], vals)) if has and vals is not None else '',
+                                                           ' '.join(FLAVOURS[obs['cmd'][4]]) or 'serial',
+                                                           ' (task created at run time by a create_after creator: sent to the worker process as a pickled Task)' if delayed and obs['cmd'][4] == 'proc' else ''),
+                                                   shape='c10:getargs-not-delivered', case=case))
+                        continue
                     if tasks[s]['group']:
                         subs = [j for j in tasks[s]['task_dep'] if tasks[j]['sub_of'] == s]
                         want_keys = sorted('s%d' % j for j in subs)
@@ -1467,6 +1499,15 @@ class Shadow:
                                                        shape='changed-empty-when-uptodate-false', case=case))
                         else:
                             out.violations.append(dict(what='`changed` %s misses modified file dependencies %s' % (sorted(ch), sorted(must - ch)), shape='changed-misses-modified', case=case))
+            # ---- delayed family: the action of a consumer is never scripted to fail (only providers are): a consumer whose
+            #      action fails / raises did not receive what its declared action needs (e.g. a cmd-action whose %(a3)s
+            #      has no value, a python-action without a required argument)
+            if delayed:
+                for e, tn, x in obs['events']:
+                    if e == 'failure' and tn in w.ids and live[w.ids[tn]]['kind'] == 'consumer' and fail_code(*x) in (1, 46, 47) and w.ids[tn] not in obs['cmd'][2]:
+                        out.violations.append(dict(what='the %s-action of consumer %s (parameters %s) could not be executed with the inputs it was given: %s: %s; runner: %s'
+                                                        % (live[w.ids[tn]]['action'], tn, [pname(p) for p in live[w.ids[tn]]['params']], x[0], x[1][-300:], ' '.join(FLAVOURS[obs['cmd'][4]]) or 'serial'),
+                                                   shape='c10:consumer-action-failed', case=mkcase(w.ids[tn], live[w.ids[tn]])))
             # ---- a getargs error must have a cause: some source without record (42) / without the key (43) in the
             #      values of its most recent successful execution
             for e, tn, x in obs['events']:
@@ -1585,16 +1626,28 @@ def run(ctx):
                  '(session, run) counts when a task with such an action was executed with getargs values through **kwargs or a shared dict; '
                  'family kwargs (class level, harness/c10_kwargs.py; Model/Kwargs.v): an execution counts when it received the current value of '
                  'an option although an earlier execution over the same dict object held another value under that name')
-    nsess, nrev, ndel, nread, nshared = ctx.n(120, 600), ctx.n(110, 500), ctx.n(144, 720), ctx.n(12, 36), ctx.n(70, 500)
+    out.rule += ('; family delayed-proc (the delayed family with PICKLABLE instrumented actions, harness/c10_pick.py, mostly under `-n 2` worker '
+                 'processes: a task created at run time is sent to the worker as a whole pickled Task, so getargs values / changed / calculated '
+                 'dependencies put on the Task object by the main process must survive Task.__getstate__; same oracles as family delayed plus '
+                 'c10:getargs-not-delivered, c10:consumer-action-failed): a (session, run) counts as for family delayed; input_distribution '
+                 'delayed-proc:in-worker-process:* counts what the consumers executed in a worker process received')
+    nsess, nrev, ndel, nread, nshared, nproc = ctx.n(120, 600), ctx.n(110, 500), ctx.n(144, 720), ctx.n(12, 36), ctx.n(70, 500), ctx.n(48, 480)
     cases, metas = [], []
     import time
     fam_s = {}
-    for idx in range(nsess + nrev + ndel + nread + nshared):
+    for idx in range(nsess + nrev + ndel + nread + nshared + nproc):
         t_fam = time.time()
-        is_delayed = nsess + nrev <= idx < nsess + nrev + ndel
+        is_proc = idx >= nsess + nrev + ndel + nread + nshared
+        is_delayed = nsess + nrev <= idx < nsess + nrev + ndel or is_proc
         is_readded = nsess + nrev + ndel <= idx < nsess + nrev + ndel + nread
-        is_shared = idx >= nsess + nrev + ndel + nread
-        if is_shared:
+        is_shared = nsess + nrev + ndel + nread <= idx < nsess + nrev + ndel + nread + nshared
+        if is_proc:
+            # (generated after the older families: their sessions are the same as before for a given seed)
+            sess = gen_delayed_session(ctx.rng, idx, idx - (nsess + nrev + ndel + nread + nshared),
+                                       flavours=('proc', 'proc', 'proc', 'proc', 'serial', 'thread'), p_ga=0.75)
+            sess['pickle'], sess['family'] = True, 'delayed-proc'
+            out.count('delayed-proc:shape:' + sess['shape'])
+        elif is_shared:
             # (generated after the older families: their sessions are the same as before for a given seed)
             hist = ctx.rng.choice(['random', 'revalue', 'revalue'])
             sess = gen_session(ctx.rng, idx, hist, ncons_choices=(1, 2, 2))
@@ -1609,7 +1662,7 @@ def run(ctx):
             out.count('delayed:shape:' + sess['shape'])
         else:
             sess = gen_session(ctx.rng, idx, 'random' if idx < nsess else 'revalue')
-        out.count('sessions:' + sess['mode'])
+        out.count('sessions:' + sess.get('family', sess['mode']))
         try:
             ints, runs, w = run_session(ctx, sess, out)
         except Exception as e:  # noqa -- machinery or implementation failure: observable, not a crash of the check
@@ -1622,7 +1675,8 @@ def run(ctx):
             cases.append(dict(model=expr, defs=defs, expected=ints, desc=dict(session=idx, kind='session')))
         elif ints == [97]:
             out.violations.append(dict(what='a session of the delayed family could not be executed: ' + (ctx.notes[-1][-300:] if ctx.notes else ''),
-                                       shape='delayed-session-crash', case=dict(session=idx, mode='delayed', tasks=sess['tasks'], cmds=sess['cmds'], backend=sess['backend'])))
+                                       shape='delayed-session-crash', case=dict(session=idx, mode='delayed', tasks=sess['tasks'], cmds=sess['cmds'], backend=sess['backend'],
+                                                                                pickle=bool(sess.get('pickle')))))
         metas.append(sess)
         if w is not None:
             if not is_delayed:
@@ -1681,7 +1735,7 @@ def run(ctx):
         if w is not None:
             import shutil
             shutil.rmtree(w.dir, ignore_errors=True)
-        fam_s[sess['mode']] = fam_s.get(sess['mode'], 0) + time.time() - t_fam
+        fam_s[sess.get('family', sess['mode'])] = fam_s.get(sess.get('family', sess['mode']), 0) + time.time() - t_fam
     t_fam = time.time()
     c10_kwargs.class_level(ctx, out, common)
     fam_s['kwargs(class level, with its model evaluation)'] = time.time() - t_fam
@@ -1696,9 +1750,11 @@ def run(ctx):
     out.extra['notes'] = ctx.notes[:10] + [
         'family delayed (consumers created at run time by create_after creators: single dict taking over the placeholder, yielded sub-tasks, '
         'target_regex; calc_dep returning file_dep/task_dep/uptodate; getargs; serial and -n 2 -P thread through DoitMain; json/dbm/sqlite3 '
-        'round-robin; no process runner: run-time created tasks must be picklable, the instrumented closures are not) is judged by the IMPLEMENTATION-SIDE oracle only (Shadow.judge): delayed creation is modelled in coq/Model/Delayed.v '
+        'round-robin; no process runner there: run-time created tasks must be picklable, the instrumented closures are not -- family delayed-proc '
+        'runs the same generator with picklable actions (harness/c10_pick.py) mostly under -n 2 processes) is judged by the IMPLEMENTATION-SIDE oracle only (Shadow.judge): delayed creation is modelled in coq/Model/Delayed.v '
         'for C15, not in Model/Inputs.v; no theorem of Properties/C10.v speaks about delayed-created tasks']
-    out.extra['delayed_family'] = dict(sessions=ndel, runs=out.distribution.get('delayed:runs', 0))
+    out.extra['delayed_family'] = dict(sessions=ndel + nproc, runs=out.distribution.get('delayed:runs', 0),
+                                       delayed_proc_sessions=nproc, delayed_proc_runs=out.distribution.get('delayed-proc:runs', 0))
     out.extra['trusted_base'] = ['Python inspect.signature / bind_partial as used by _prepare_kwargs (oracle: the model Kwargs.v is given the parameter names, **kwargs flag and number of positional arguments) and %-formatting of CmdAction (oracle; exercised, not modelled)',
                                  'the canonical depth-first schedule of Inputs.visit (other schedules: compared on the serial, process and thread runners)']
     out.assumptions = ['task params / pos_arg not modelled (options start empty)',
@@ -1731,6 +1787,13 @@ def delayed_counts(out, sess, w, obs, idx, ri):
         out.count('delayed:episode:' + ep)
     succeeded = {tn for e, tn, _ in obs['events'] if e == 'success'}
     uptodate = {tn for e, tn, _ in obs['events'] if e == 'uptodate'}
+    pk = bool(sess.get('pickle'))
+    if pk:
+        out.count('delayed-proc:runs')
+        out.count('delayed-proc:runner:' + c[4])
+        out.count('delayed-proc:exit:%s' % obs['rc'])
+        if any(e == 'runtime_error' for e, _, _ in obs['events']):
+            out.count('delayed-proc:runtime-error')
     for i in sess['consumers']:
         nm, t = w.names[i], obs['live'][i]
         kind = 'single(takes-over-placeholder)' if t['sub_of'] is None else 'sub-task'
@@ -1740,6 +1803,13 @@ def delayed_counts(out, sess, w, obs, idx, ri):
             continue
         kw = lg[0]['kw']
         out.count('delayed:consumer:%s:executed' % kind)
+        inw = pk and c[4] == 'proc'
+        if inw:
+            out.count('delayed-proc:in-worker-process:consumer:%s:%s-action' % (kind, t['action']))
+            if kw.get('changed'):
+                out.count('delayed-proc:in-worker-process:changed-nonempty')
+            if t['calc_dep'] and len(kw.get('dependencies', [])) > len(t['file_dep']):
+                out.count('delayed-proc:in-worker-process:dependencies-extended-by-calc')
         if t['calc_dep']:
             cn = w.names[t['calc_dep'][0]]
             out.count('delayed:calc-provider:' + ('executed-this-run' if cn in succeeded else 'up-to-date(saved values)' if cn in uptodate else 'other'))
@@ -1753,6 +1823,8 @@ def delayed_counts(out, sess, w, obs, idx, ri):
             if pname(a) in kw:
                 sn = w.names[s_]
                 out.count('delayed:getargs:%s:provider-%s' % ('dict' if k is None else 'key', 'executed-this-run' if sn in succeeded else 'up-to-date(values from DB)' if sn in uptodate else 'not-run(values from DB)'))
+                if inw:
+                    out.count('delayed-proc:in-worker-process:getargs:%s:provider-%s' % ('dict' if k is None else 'key', 'executed-this-run' if sn in succeeded else 'up-to-date(values from DB)' if sn in uptodate else 'not-run(values from DB)'))
                 out.nontrivial.add((idx, ri))
 
 
@@ -1796,6 +1868,8 @@ def replay(ctx, payload):
     sess = dict(idx=0, tasks=[thaw_task(t) for t in case['tasks']], cmds=cmds, backend=case.get('backend', 'json'), mode=case.get('mode', 'random'))
     if 'objs' in case:
         sess['objs'] = case['objs']
+    if case.get('pickle'):
+        sess['pickle'] = True
     out = Outcome()
     if sess['mode'] == 'delayed':
         print('session of the delayed family (consumers created at run time by create_after creators):')
